@@ -69,8 +69,7 @@ def ok_virtual_dispatch_reader(src):
 
 
 def alarm_super_call(src):
-    class_ = SubWriter
-    class_().apply(src)
+    SubWriter().apply(src)
 
 
 class SubWriter(Writer):
